@@ -141,7 +141,8 @@ def IR.addReturnEdgesToCallee (ir : IR) (pcfg : List Edge) (f : Nat) (retTarget 
     IR × List Edge :=
   (ir.functionBlocks f).foldl (fun (acc : IR × List Edge) b =>
     let rets := acc.1.returnEdgesOf b
-    if rets.isEmpty then acc
+    -- the block returns if it has return edges in the module's CFG or already in the CFG being collected
+    if rets.isEmpty && !(acc.2.any (fun e => Edge.isRet e && e.src == CfgNode.block b)) then acc
     else
       let proxyRets := rets.filter (fun e => match e.dst with | .proxy _ => true | .block _ => false)
       let ir' := proxyRets.foldl (fun ir e => { ir with cfg := cfgDiscard ir.cfg e }) acc.1
